@@ -787,6 +787,31 @@ def finish(prop, tier, seed, units, results, ledger, findings, fixed, pmeta, arg
         if st == "ok":
             (bounded_ok if is_bounded else proved).append(r)
             continue
+        if st == "logical" and r.get("kind") == "verus":
+            # A failed proof is an alarm only when the failing function still calls nothing but what it called when
+            # the ledger was written.  A new callee (a std function without a specification, a new helper without a
+            # contract) or a new closure means the verifier knows nothing about part of the function: the failure says
+            # "needs contract", not "property violated" -> undecided.
+            base = led.get(r["id"], {}).get("callees")
+            cur = dict((f.get("label", f["fn"]), f) for f in r.get("extraction", {}).get("functions", []))
+            fl = [f for f in r.get("failures", []) if f.get("in_repo_code")]
+            if base is not None and fl:
+                novel = {}
+                for f in fl:
+                    lab = f.get("function")
+                    b0 = base.get(lab)
+                    c0 = cur.get(lab)
+                    if b0 is None or c0 is None:
+                        continue
+                    newc = sorted(set(c0.get("callees", [])) - set(b0.get("callees", [])))
+                    if c0.get("closures", 0) > b0.get("closures", 0):
+                        newc.append("<a new closure>")
+                    if newc:
+                        novel[lab] = newc
+                if novel and all(f.get("function") in novel for f in fl):
+                    r["status"] = st = "undecided"
+                    r["reason"] = "the proof failed in %s, which now calls code the contracts say nothing about: %s" % (
+                        sorted(novel), "; ".join("%s -> %s" % (k, ", ".join(v)) for k, v in sorted(novel.items())))
         if st == "logical" and r.get("kind") == "verus" and u.get("cross"):
             # The same leaf contract is also proved on the compiled crate by complete Kani harnesses.  If Verus
             # fails only in functions whose Kani counterparts all pass in this run, the code still satisfies the
@@ -816,6 +841,9 @@ def finish(prop, tier, seed, units, results, ledger, findings, fixed, pmeta, arg
     if args.update_ledger:
         for r in proved + bounded_ok:
             led[r["id"]] = {"kind": r["kind"], "bounded": bool(r.get("bounded"))}
+            if r["kind"] == "verus":
+                led[r["id"]]["callees"] = dict((f.get("label", f["fn"]), {"callees": f.get("callees", []), "closures": f.get("closures", 0)})
+                                               for f in r.get("extraction", {}).get("functions", []))
             if r["kind"] == "kani":
                 led[r["id"]].update(checks=r.get("checks"), covers=list(r["covers"]) if r.get("covers") else None)
         json.dump(ledger, open(LEDGER, "w"), indent=1, sort_keys=True)
